@@ -137,11 +137,13 @@ def run_case(case, g, tier, res):
                 ps = [c.fresh_real(f"p{i}", 1e-3, 1e6) for i in range(FAMS[fam])]
             if fam == "schulz_zimm":
                 c.add((ps[0] > ps[1]).e)
+            # every parameter in any spelling of the number (as Python prints it, positional decimal, exponent notation)
+            style = (None, "plain", "sci", "sci-short", "sci-upper")[c.fresh_int("spelling", 0, 4).__index__()] if fam != "uniform" else None
             parts = ["|", blank("b0"), fam, "("]
             for i, p in enumerate(ps):
                 if i:
                     parts += [",", blank(f"b{i}")]
-                parts.append(Num(p, "int" if fam == "uniform" else "float"))
+                parts.append(Num(p, "int") if fam == "uniform" else Num(p, "float", style))
             parts += [")", "|"]
             text = SymStr.of(*[p for p in parts if p != ""])
             via = c.fresh_int("via", 0, 1).__index__()
